@@ -1127,6 +1127,16 @@ S_ITEMS = [":param x: d", ":param int x: d", ":parameter y:", ":type x: int or s
            ":var : d", ":ivar :", ":vartype : int", ":var np: d", ":cvar cyc: d", ":var x: d", ":param : d", ":type : int", ":raises : e"]
 
 
+EX_LINES = ["Some text.", "More text: with colon", "", "", ">>> a = 1", ">>> print(a)  # doctest: +SKIP", ">>> f()  #doctest: +ELLIPSIS",
+            "... continued", "1", "<BLANKLINE>", "  <BLANKLINE>  ", "```", "```python", "```", "    indented", ">>>", ">>> x # doctest:",
+            "text # doctest: +SKIP", "  ", ">>> b = 2   # doctest: +NORMALIZE_WHITESPACE  ", "output # doctest: +X"]
+
+
+def gen_examples_body(rng, ind):
+    """lines of an Examples block: prose, blank lines, doctest prompts with flags, outputs, fences"""
+    return [(" " * ind + l) if l.strip() else l for l in (rng.choice(EX_LINES) for _ in range(rng.randint(1, 7)))]
+
+
 def gen_structured(rng, style):
     lines = []
     if rng.random() < 0.85:
@@ -1140,23 +1150,33 @@ def gen_structured(rng, style):
     for _ in range(rng.randint(0, 3)):
         ind = rng.choice([4, 4, 4, 2, 1, 3, 8])
         if style == "google":
-            h = rng.choice(G_HEADERS)
+            h = rng.choice(G_HEADERS + ["Examples"])
+            is_examples = h == "Examples"
             h = rng.choice([h, h, h, h.lower(), h.upper()]) + ":" + rng.choice(["", "", "", " A title", "  "])
             if rng.random() < 0.1:
                 h = " " * rng.randint(1, 4) + h
             lines.append(h)
             if rng.random() < 0.12:
                 lines.append("")
+            if is_examples and rng.random() < 0.8:
+                lines += gen_examples_body(rng, ind)
+                if rng.random() < 0.75:
+                    lines.append("")
+                continue
             for _ in range(rng.randint(0, 3)):
                 lines.append(" " * ind + rng.choice(G_ITEMS))
                 for _ in range(rng.choice([0, 0, 1, 2])):
                     lines.append(rng.choice([" " * (2 * ind) + "continued", " " * (ind + 1) + "odd", "", " " * ind, " " * (2 * ind) + "more: x"]))
         elif style == "numpy":
-            h = rng.choice(N_HEADERS)
+            h = rng.choice(N_HEADERS + ["Examples"])
             lines.append(rng.choice([h, h, h, h.lower(), h.upper(), " " + h]))
             lines.append(rng.choice(["-" * len(h), "---", "-", "- -", " ---", "--- "]))
             if rng.random() < 0.1:
                 lines.append("")
+            if h == "Examples" and rng.random() < 0.8:
+                lines += gen_examples_body(rng, 0)
+                lines.append("")
+                continue
             for _ in range(rng.randint(0, 3)):
                 lines.append(rng.choice(N_ITEMS))
                 for _ in range(rng.choice([0, 0, 1, 2])):
